@@ -7,7 +7,7 @@ from ..gen import G
 
 ID = "C19"
 LEVEL = "exploration"
-RULE = ("cases = SEQUENCES of 1-4 foreign calls in one program, each call = (library: one of two builds of the probe that tag their output differently, or a missing file) x (argument vector of length 0-6 over int, bigint, float, byte, bool, str with boundary values and "
+RULE = ("cases = SEQUENCES of 1-4 foreign calls in one program, each call = (library: one of two builds of the probe that tag their output differently - under `lib<name>.so` or under a versioned name / an own extension / no extension / in a dotted directory, each with a decoy of the OTHER build under the name a normalised spelling would give - or a missing file) x (argument vector of length 0-6 over int, bigint, float, byte, bool, str with boundary values and "
         "format-special characters) x (return form: first argument echoed back, last argument echoed back, no value, raised error with a fixed message, raised error whose message is made of the string arguments - one or several lines - and must be reported whole) "
         "+ the fault cases missing library / missing symbol; the harness writes BINARY bytecode itself (its own encoder: "
         "push each argument, call_lib, printn *, make_str AFTER, printn *) and a probe dylib built against the working tree's "
@@ -113,7 +113,20 @@ def display(v):
 
 FORMS = {"first": "probe_echo_first", "last": "probe_echo_last", "none": "probe_none", "error": "probe_error", "errtext": "probe_error_text", "only1": "probe_only_in_first"}
 LIBFILE = {1: "./libprobe.so", 2: "./libprobe2.so", "missing": "./no_such_library.so"}
+# the same two builds under file names that do not follow `lib<name>.so`: a versioned name, an own extension, no extension, a
+# dotted directory.  Next to each lies a DECOY - the other build under the name a "normalised" spelling would give - so that
+# opening anything but the named file shows in the tag of the output (or as a missing library).
+NAMED = {"versioned": ("./libprobe.so.1", 1), "plugin-ext": ("./shapes.plugin", 1), "no-ext": ("./probe_noext", 2), "dotted-dir": ("./build.v2/libprobe.so", 2), "upper-ext": ("./Probe.SO", 1)}
+DECOYS = {"./libprobe.so.1.so": 2, "./libprobe.so.so": 2, "./shapes.so": 2, "./probe_noext.so": 1, "./build.so": 1, "./Probe.so": 2}
+for _k, (_path, _build) in NAMED.items():
+    LIBFILE[_k] = _path
 TAGS = {1: "PROBE", 2: "PROBE2"}
+for _k, (_path, _build) in NAMED.items():
+    TAGS[_k] = TAGS[_build]
+
+
+def BUILD_OF(lib):
+    return NAMED[lib][1] if lib in NAMED else lib
 
 
 def calls_of(case):
@@ -138,7 +151,7 @@ def build(case):
         if lib == "missing":
             failed = "Could not open FFI Library"
             continue
-        if c.get("symbol") or (form == "only1" and lib == 2):
+        if c.get("symbol") or (form == "only1" and BUILD_OF(lib) == 2):
             failed = "Could not find symbol"
             continue
         exp.append("%s %s argc=%d" % (TAGS[lib], fn, len(vec)))
@@ -163,7 +176,9 @@ def build(case):
     else:
         exp.append("AFTER")
         asserts = [{"kind": "stdout_eq", "step": "run", "value": "".join(l + "\n" for l in exp)}, {"kind": "exit", "step": "run", "in": ["ok"]}]
-    return {"files": {"p/q/r/main.mmm": {"b64": base64.b64encode(data).decode()}}, "symlinks": {"p/q/r/libprobe.so": "{PROBE}", "p/q/r/libprobe2.so": "{PROBE2}"}, "cwd": "p/q/r",
+    return {"files": {"p/q/r/main.mmm": {"b64": base64.b64encode(data).decode()}}, "symlinks": dict({"p/q/r/libprobe.so": "{PROBE}", "p/q/r/libprobe2.so": "{PROBE2}"},
+                             **{"p/q/r/" + pth[2:]: "{PROBE}" if b == 1 else "{PROBE2}" for pth, b in list(NAMED.values()) + list(DECOYS.items())}),
+            "dirs": ["p/q/r/build.v2"], "cwd": "p/q/r",
             "steps": [{"id": "run", "argv": ["mscript", "execute", "main.mmm"]}], "asserts": asserts}
 
 
@@ -187,7 +202,7 @@ def check(case):
     sc = build(case)
     res, fails, _ = scenario.execute(sc)
     kinds = set(k for c in calls for k, _ in c["args"])
-    faulty = any(c["lib"] == "missing" or c.get("symbol") or c["form"] in ("error", "errtext") or (c["form"] == "only1" and c["lib"] == 2) for c in calls)
+    faulty = any(c["lib"] == "missing" or c.get("symbol") or c["form"] in ("error", "errtext") or (c["form"] == "only1" and BUILD_OF(c["lib"]) == 2) for c in calls)
     nt = any(len(c["args"]) >= 2 and len(set(k for k, _ in c["args"])) >= 2 for c in calls) or faulty or len(calls) >= 2
     labels = ["calls=%d" % len(calls), "libs=%d" % len(set(c["lib"] for c in calls))] + ["form=" + c["form"] for c in calls] + ["argc=%d" % len(c["args"]) for c in calls] + \
              ["kind=" + k for k in kinds] + (["fault"] if faulty else [])
@@ -216,6 +231,11 @@ def enumerated(tier, seed):
     for text in ("plain", "two\nlines", "three\nlines\nhere", "\nleading break", "trailing break\n", "a\n\nb", "tab\there", "q\"r", "back\\slash", "é😀", "", " lead", "cr\r\nlf"):
         cases.append({"args": [("int", 1), ("str", text)], "form": "errtext"})
         cases.append({"args": [("str", text), ("str", "x\ny")], "form": "errtext"})
+    for nm in NAMED:
+        for f in ("first", "none", "error", "only1"):
+            cases.append({"calls": [{"lib": nm, "form": f, "args": [("int", 7), ("str", "x y")], "symbol": None}]})
+        cases.append({"calls": [{"lib": nm, "form": "first", "args": [("int", 1)], "symbol": None}, {"lib": 1, "form": "last", "args": [("int", 2)], "symbol": None},
+                                {"lib": nm, "form": "last", "args": [("str", "z")], "symbol": None}]})
     for fault in ("missing-library", "missing-symbol"):
         for n in (0, 1, 3):
             cases.append({"args": VALUES[:n], "form": "first", "fault": fault})
@@ -265,7 +285,7 @@ def sequences(draw):
     for _ in range(g.weighted([(5, 1), (3, 2), (2, 3), (1, 4)])):
         args = draw(vectors())
         fault = g.weighted([(12, None), (1, "missing-library"), (1, "missing-symbol")])
-        calls.append({"lib": "missing" if fault == "missing-library" else g.choice([1, 1, 2]), "form": g.choice(["first", "last", "none", "error", "errtext", "only1", "first", "last"]),
+        calls.append({"lib": "missing" if fault == "missing-library" else g.choice([1, 1, 2] + (list(NAMED) if g.chance(30) else [])), "form": g.choice(["first", "last", "none", "error", "errtext", "only1", "first", "last"]),
                       "args": args, "symbol": "probe_does_not_exist" if fault == "missing-symbol" else None})
     return {"calls": calls}
 
